@@ -5,6 +5,7 @@ import vlib
 import e2e
 import calc
 import streams
+import unitcorr
 
 ID = "C02"
 LEVEL = "proof"
@@ -69,6 +70,9 @@ def run(ctx):
                 kinds["one-loop" if nl == 1 else "multi-loop"] += 1
     if ctx.coq_ok:
         mism += e2e.coq_compare("c02", coq_cases)
+        m1, n_aux = unitcorr.poly_aux(ctx, ctx.n(200, 2000))
+        m2, n_chain = unitcorr.rel_chain_fix(ctx, ctx.n(60, 600), failing, "C02")
+        mism += m1 + m2
     else:
         mism.append("model not built: analysis correspondence not run")
     dist = streams.distribution(recs)
